@@ -17,6 +17,8 @@ ib2 := IB.new(2)
 sb := Str.bear({B: m{"B".p; true}}).new("")
 ab := Arr.bear({B: m{"B".p; false}}).new([1, 2])
 idf := {|x| x}
+nb := Nil.bear({B: m{"B".p; true}}).new
+nbf := Nil.bear({B: m{"B".p; false}}).new
 '''
 
 # (expression, truthy?, prints B marker?, Inspect of the value or None when not compared)
@@ -42,6 +44,8 @@ POOL = [
     ("bt", True, True, None), ("bf", False, True, None), ("bn", False, True, None), ("be", False, True, None),
     ("bt.bear", True, True, None), ("bf.bear", False, True, None),
     # typed descendants whose prototype overrides B: the rule is `.B`, whatever the Go representation of the value
+    # negative zero is zero; a nil made from a descendant of Nil that defines B is asked like any other value (also by `!`)
+    ("-0.0", False, False, "-0.000000"), ("(0.0 * -1)", False, False, "-0.000000"), ("nb", True, True, "nil"), ("nbf", False, True, "nil"),
     ("ib1", False, True, "1"), ("ib2", True, True, "2"), ("sb", True, True, '""'), ("ab", False, True, "[1, 2]"),
 ]
 
